@@ -6,6 +6,7 @@ package verifbench
 // ResponseWriter that mimics net/http's header-snapshot and trailer rules.
 
 import (
+	"compress/gzip"
 	"golang.org/x/net/http/httpguts"
 	"bufio"
 	"bytes"
@@ -225,9 +226,103 @@ func transcoderBaseOptions() []vanguard.TranscoderOption {
 	return []vanguard.TranscoderOption{
 		vanguard.WithCodec(func(vanguard.TypeResolver) vanguard.Codec { return textCodec{} }),
 		vanguard.WithCompression(CompDeflate,
-			func() connect.Compressor { return zlib.NewWriter(io.Discard) },
-			func() connect.Decompressor { return &zlibDecomp{} }),
+			func() connect.Compressor { return &trackedComp{inner: zlib.NewWriter(io.Discard), name: CompDeflate} },
+			func() connect.Decompressor { return &trackedDecomp{inner: &zlibDecomp{}, name: CompDeflate} }),
+		// gzip with the same objects vanguard uses by default, wrapped for bookkeeping
+		vanguard.WithCompression(CompGzip,
+			func() connect.Compressor { return &trackedComp{inner: gzip.NewWriter(io.Discard), name: CompGzip} },
+			func() connect.Decompressor { return &trackedDecomp{inner: &gzip.Reader{}, name: CompGzip} }),
 	}
+}
+
+// ---- bookkeeping (de)compressors ---------------------------------------------------
+// Vanguard pools compressor and decompressor objects. An object is "in use" from Reset until Close
+// (or until a Read/Write fails, after which vanguard returns it without closing). An object that is
+// Reset while in use has been handed to two requests at once (e.g. it sits in the pool twice).
+
+var compMisuse struct {
+	mu    sync.Mutex
+	notes []string
+}
+
+func noteCompMisuse(f string, a ...any) {
+	compMisuse.mu.Lock()
+	if len(compMisuse.notes) < 20 {
+		compMisuse.notes = append(compMisuse.notes, fmt.Sprintf(f, a...))
+	}
+	compMisuse.mu.Unlock()
+}
+
+// takeCompMisuse returns and clears what was noted since the last call.
+func takeCompMisuse() []string {
+	compMisuse.mu.Lock()
+	defer compMisuse.mu.Unlock()
+	out := compMisuse.notes
+	compMisuse.notes = nil
+	return out
+}
+
+type trackedDecomp struct {
+	inner connect.Decompressor
+	busy  int32
+	name  string
+}
+
+func (d *trackedDecomp) Reset(r io.Reader) error {
+	if !atomic.CompareAndSwapInt32(&d.busy, 0, 1) {
+		noteCompMisuse("a %s decompressor was handed out (Reset) while another use of it had not finished", d.name)
+	}
+	err := d.inner.Reset(r)
+	if err != nil {
+		atomic.StoreInt32(&d.busy, 0)
+	}
+	return err
+}
+
+// compStretch (C14 only) makes every decompressor Read yield the processor first, so that two
+// requests which were wrongly given the same object do overlap in time.
+var compStretch int32
+
+func (d *trackedDecomp) Read(p []byte) (int, error) {
+	if atomic.LoadInt32(&compStretch) != 0 {
+		time.Sleep(20 * time.Microsecond)
+	}
+	n, err := d.inner.Read(p)
+	if err != nil {
+		atomic.StoreInt32(&d.busy, 0)
+	}
+	return n, err
+}
+
+func (d *trackedDecomp) Close() error {
+	atomic.StoreInt32(&d.busy, 0)
+	return d.inner.Close()
+}
+
+type trackedComp struct {
+	inner connect.Compressor
+	busy  int32
+	name  string
+}
+
+func (c *trackedComp) Reset(w io.Writer) {
+	if !atomic.CompareAndSwapInt32(&c.busy, 0, 1) {
+		noteCompMisuse("a %s compressor was handed out (Reset) while another use of it had not finished", c.name)
+	}
+	c.inner.Reset(w)
+}
+
+func (c *trackedComp) Write(p []byte) (int, error) {
+	n, err := c.inner.Write(p)
+	if err != nil {
+		atomic.StoreInt32(&c.busy, 0)
+	}
+	return n, err
+}
+
+func (c *trackedComp) Close() error {
+	atomic.StoreInt32(&c.busy, 0)
+	return c.inner.Close()
 }
 
 func buildTranscoder(cfg Config, handler http.Handler, unknown http.Handler) (*vanguard.Transcoder, error) {
